@@ -74,6 +74,40 @@ static int nextGenericKeyIter(SetIteration* i)
     return 0;
 }
 
+/* Remove adjacent equal items from the sorted list, in place, so that a
+ * generic iterable yields each key once, like a set or a bucket does.
+ * Returns 0 on success, -1 (with an exception set) if a comparison fails.
+ */
+static int
+uniqSortedList(PyObject *list)
+{
+    Py_ssize_t i, j = 0;
+    Py_ssize_t n = PyList_GET_SIZE(list);
+
+    for (i = 1; i < n; i++)
+    {
+        PyObject *last = PyList_GET_ITEM(list, j);
+        PyObject *item = PyList_GET_ITEM(list, i);
+        int eq = PyObject_RichCompareBool(last, item, Py_EQ);
+        if (eq < 0)
+            return -1;
+        if (!eq)
+        {
+            j++;
+            if (j != i)
+            {
+                /* swap, so every reference stays owned by the list */
+                PyObject *tmp = PyList_GET_ITEM(list, j);
+                PyList_SET_ITEM(list, j, item);
+                PyList_SET_ITEM(list, i, tmp);
+            }
+        }
+    }
+    if (n > 0 && j + 1 < n)
+        return PyList_SetSlice(list, j + 1, n, NULL);
+    return 0;
+}
+
 /* initSetIteration
  *
  * Start the set iteration protocol.  See the comments at struct SetIteration.
@@ -178,6 +212,11 @@ initSetIteration(SetIteration *i, PyObject *s, int useValues)
         PyObject* list = PySequence_List(s);
         UNLESS(list) return -1;
         if (PyList_Sort(list) == -1) {
+            Py_DECREF(list);
+            return -1;
+        }
+        /* ... and each key must appear only once. */
+        if (uniqSortedList(list) == -1) {
             Py_DECREF(list);
             return -1;
         }
